@@ -107,7 +107,33 @@ func suiteC03(c *ctx) {
 			kv = append(kv, true)
 		}
 	}
+	// dynamic headers full of long zero runs (code-length symbol 18 with its 7 extra bits), cut at
+	// every byte: the input ends inside or right after the run-length items
+	for j := 0; j < c.n(10); j++ {
+		s := StreamSpec{Kind: "synth", Synth: &SynthSpec{Seed: r.U64(), Blocks: 1 + r.Intn(2), Size: r.Pick([]int{1, 3, 30}), Kinds: "Z"}}
+		st, _, _, _ := s.Materialize()
+		for cut := 1; cut < len(st) && cut < 120; cut++ {
+			cases = append(cases, &RCase{Prop: "C03", ID: fmt.Sprintf("C03-z%d-%d", j, cut), API: "flate", Stream: s, Cut: cut, Src: SrcSpec{Kind: "bytes.Reader"}, Ctor: "new", Reads: "big"})
+			kv = append(kv, true)
+		}
+	}
+	// regression corpus: inputs of earlier findings, kept verbatim
+	for j, h := range regressionCorpus {
+		cases = append(cases, &RCase{Prop: "C03", ID: fmt.Sprintf("C03-corpus%d", j), API: "flate", Stream: StreamSpec{Kind: "hex", Hex: h}, Cut: -1, Src: SrcSpec{Kind: "bytes.Reader"}, Ctor: "new", Reads: "big"})
+		kv = append(kv, false)
+		cases = append(cases, &RCase{Prop: "C03", ID: fmt.Sprintf("C03-corpus%d-b", j), API: "flate", Stream: StreamSpec{Kind: "hex", Hex: h}, Cut: -1, Src: SrcSpec{Kind: "bufio", Buf: 16, Chunk: "one", Term: "eof"}, Ctor: "new", Reads: "k3"})
+		kv = append(kv, false)
+	}
 	parallelJ(len(cases), func(i int) interface{} { return cases[i] }, func(i int) { checkC03(c.rep, c.pool, cases[i], kv[i]) })
+}
+
+// inputs on which a defect was once found (DESIGN.md section 7); they run first in every C03 check
+var regressionCorpus = []string{
+	// a truncated dynamic header ending right after a code word that follows an 18-run: reported as a clean io.EOF
+	"ed1d80e4ff9f",
+	"000500faff68656c6c6fed1d80e4ff9f",
+	// 29 distance codes of 11..15 bits: long-code groups overflowed LongCodeLookup[80]
+	"05fd016c00806118b60100000000000000000000000000000000000000000000000000000000000000000000008000000000000000000000000000000000000000000000000000000000000000000000000000000000000000000000000000000000000000000000003076d22c0e9e2ef77ddf89ed",
 }
 
 func suiteC04(c *ctx) {
